@@ -310,7 +310,7 @@ def main():
     log("%s: %d obligations, %d discharged, %d refuted (%d known) in %.1fs" % (
         prop, len(records), sum(1 for r in records if r["status"] == "discharged"), len(violations),
         len(violations) - len(new), wall))
-    return 1 if new else 0
+    return 1 if new else (2 if undecided else 0)
 
 
 def cfg_scan():
